@@ -197,18 +197,48 @@ func runC13(a *A) {
 			if !ok {
 				continue
 			}
-			for _, l := range phiLeaves(ret.Results[0]) {
-				n++
-				if c, isCall := l.(*ssa.Call); isCall {
-					uses := false
-					for _, e := range appendedElems(&c.Call) {
-						if mi, isMI := e.(*ssa.MakeInterface); isMI && mi.X == ssa.Value(field) {
-							uses = true
-						}
+			// does the rendered text contain the column? a Sprintf with the column among its operands, or
+			// a same-package render helper that is given the column and puts it into every text it returns
+			var mentions func(v ssa.Value, col ssa.Value, d int) bool
+			mentions = func(v ssa.Value, col ssa.Value, d int) bool {
+				c, isCall := v.(*ssa.Call)
+				if !isCall || d > 2 {
+					return false
+				}
+				for _, e := range appendedElems(&c.Call) {
+					if mi, isMI := e.(*ssa.MakeInterface); isMI && mi.X == col {
+						return true
 					}
-					if uses {
+				}
+				h := c.Call.StaticCallee()
+				if h == nil || h.Blocks == nil || h.Pkg != fn.Pkg {
+					return false
+				}
+				for i, arg := range c.Call.Args {
+					if arg != col || i >= len(h.Params) {
 						continue
 					}
+					all, any := true, false
+					for _, hb := range h.Blocks {
+						if hr, ok := hb.Instrs[len(hb.Instrs)-1].(*ssa.Return); ok && len(hr.Results) > 0 {
+							for _, hl := range phiLeaves(hr.Results[0]) {
+								any = true
+								if !mentions(hl, h.Params[i], d+1) {
+									all = false
+								}
+							}
+						}
+					}
+					if any && all {
+						return true
+					}
+				}
+				return false
+			}
+			for _, l := range phiLeaves(ret.Results[0]) {
+				n++
+				if mentions(l, field, 0) {
+					continue
 				}
 				bad = append(bad, TermOf(l, nil).String())
 			}
@@ -355,62 +385,83 @@ func (a *A) ruleTrailingWildcards(fn *ssa.Function) {
 		a.Und(construct, fn.Pos(), "main loop over the text not recognised")
 		return
 	}
-	// a second loop, outside the main one, that tests pattern[i] == '%'
-	skip := false
-	for _, li := range loops {
-		if li == main {
-			continue
-		}
-		inside := false
-		for b := range li.Blocks {
-			if main.Blocks[b] {
-				inside = true
+	// after the main loop: a loop that skips pattern[i] == '%' and a return of (index == len(pattern)) —
+	// in the matcher itself, or in a same-package helper the matcher returns the result of
+	tail := func(f *ssa.Function, pat ssa.Value, excluded map[*ssa.BasicBlock]bool) (skip, accept bool) {
+		for _, li := range sccLoops(f) {
+			inside := false
+			for b := range li.Blocks {
+				if excluded[b] {
+					inside = true
+				}
 			}
-		}
-		if inside {
-			continue
-		}
-		for b := range li.Blocks {
-			for _, in := range b.Instrs {
-				if bo, ok := in.(*ssa.BinOp); ok && bo.Op == token.EQL {
-					if k, ok := bo.Y.(*ssa.Const); ok && k.Value != nil && k.Value.Kind() == constant.Int && k.Int64() == '%' {
-						if t := TermOf(bo.X, nil); t.Kind == "index" && t.Base.Val == ssa.Value(pattern) {
-							skip = true
+			if inside {
+				continue
+			}
+			for b := range li.Blocks {
+				for _, in := range b.Instrs {
+					if bo, ok := in.(*ssa.BinOp); ok && bo.Op == token.EQL {
+						if k, ok := bo.Y.(*ssa.Const); ok && k.Value != nil && k.Value.Kind() == constant.Int && k.Int64() == '%' {
+							if t := TermOf(bo.X, nil); t.Kind == "index" && t.Base.Val == pat {
+								skip = true
+							}
 						}
 					}
 				}
 			}
 		}
+		allInstrs(f, func(in ssa.Instruction) {
+			if c, ok := in.(*ssa.Call); ok {
+				n := calleeFull(&c.Call)
+				if (n == "strings.TrimRight" || n == "strings.TrimLeft" || n == "strings.Trim") && !excluded[c.Block()] {
+					if k, ok := c.Call.Args[1].(*ssa.Const); ok && k.Value != nil && constant.StringVal(k.Value) == "%" {
+						skip = true
+					}
+				}
+			}
+		})
+		for _, b := range f.Blocks {
+			ret, ok := b.Instrs[len(b.Instrs)-1].(*ssa.Return)
+			if !ok || excluded[b] || len(ret.Results) != 1 {
+				continue
+			}
+			for _, l := range phiLeaves(ret.Results[0]) {
+				if bo, ok := l.(*ssa.BinOp); ok && bo.Op == token.EQL {
+					for _, side := range []ssa.Value{bo.X, bo.Y} {
+						if c, ok := side.(*ssa.Call); ok {
+							if cc, ok := isBuiltinCall(c, "len"); ok && cc.Args[0] == pat {
+								accept = true
+							}
+						}
+					}
+				}
+			}
+		}
+		return
 	}
-	allInstrs(fn, func(in ssa.Instruction) {
-		if c, ok := in.(*ssa.Call); ok {
-			n := calleeFull(&c.Call)
-			if (n == "strings.TrimRight" || n == "strings.TrimLeft" || n == "strings.Trim") && !main.Blocks[c.Block()] {
-				if k, ok := c.Call.Args[1].(*ssa.Const); ok && k.Value != nil && constant.StringVal(k.Value) == "%" {
-					skip = true
-				}
+	skip, accept := tail(fn, pattern, main.Blocks)
+	if !(skip && accept) {
+		for _, b := range fn.Blocks {
+			ret, ok := b.Instrs[len(b.Instrs)-1].(*ssa.Return)
+			if !ok || main.Blocks[b] || len(ret.Results) != 1 {
+				continue
 			}
-		}
-	})
-	// final acceptance: a return of (index == len(pattern)) outside the main loop
-	accept := false
-	for _, b := range fn.Blocks {
-		ret, ok := b.Instrs[len(b.Instrs)-1].(*ssa.Return)
-		if !ok || main.Blocks[b] || len(ret.Results) != 1 {
-			continue
-		}
-		for _, l := range phiLeaves(ret.Results[0]) {
-			if bo, ok := l.(*ssa.BinOp); ok && bo.Op == token.EQL {
-				for _, side := range []ssa.Value{bo.X, bo.Y} {
-					if c, ok := side.(*ssa.Call); ok {
-						if cc, ok := isBuiltinCall(c, "len"); ok && cc.Args[0] == ssa.Value(pattern) {
-							accept = true
+			for _, l := range phiLeaves(ret.Results[0]) {
+				c, ok := l.(*ssa.Call)
+				if !ok {
+					continue
+				}
+				h := c.Call.StaticCallee()
+				if h == nil || h.Blocks == nil || h.Pkg != fn.Pkg {
+					continue
+				}
+				for i, arg := range c.Call.Args {
+					if arg == ssa.Value(pattern) && i < len(h.Params) {
+						if s2, a2 := tail(h, h.Params[i], nil); s2 && a2 {
+							skip, accept = true, true
 						}
 					}
 				}
-			}
-			if k, ok := l.(*ssa.Const); ok && k.Value != nil && k.Value.Kind() == constant.Bool {
-				_ = k
 			}
 		}
 	}
